@@ -556,6 +556,22 @@ impl BudgetEnforcer {
     pub fn finalize(mut self) -> BudgetReport {
         self.report.anchors = self.defined_anchors.len();
 
+        if let Some(breach) = self.ratio_breach() {
+            self.report.breached = Some(breach);
+        }
+
+        self.report
+    }
+
+    /// True under [`EnforcingPolicy::PerDocument`].
+    pub(crate) fn per_document(&self) -> bool {
+        self.policy == EnforcingPolicy::PerDocument
+    }
+
+    /// The alias/anchor ratio heuristic over what has been counted so far: at the end of the
+    /// input, or at the end of a document under per-document enforcement.
+    pub(crate) fn ratio_breach(&self) -> Option<BudgetBreach> {
+        let anchors = self.defined_anchors.len();
         if self.budget.enforce_alias_anchor_ratio
             && self.report.aliases >= self.budget.alias_anchor_min_aliases
             // (no anchors: any alias at all is over the ratio, no alias is not)
@@ -563,15 +579,15 @@ impl BudgetEnforcer {
                 > self
                     .budget
                     .alias_anchor_ratio_multiplier
-                    .saturating_mul(self.report.anchors)
+                    .saturating_mul(anchors)
         {
-            self.report.breached = Some(BudgetBreach::AliasAnchorRatio {
+            Some(BudgetBreach::AliasAnchorRatio {
                 aliases: self.report.aliases,
-                anchors: self.report.anchors,
-            });
+                anchors,
+            })
+        } else {
+            None
         }
-
-        self.report
     }
 }
 
